@@ -119,6 +119,20 @@ func (m *MonC09) OnQuiescent(w *World, epoch int) {
 				}
 				w.Report(Violation{Property: "C09", Rule: "paused-reporting", Sig: "available-condition", Msg: fmt.Sprintf("at quiescence paused %s reports Available=%v but the reference evaluation of its objects is %v", k, c, want)})
 			}
+		case isPkgKind(k.Kind):
+			if b, _ := store.Get(o, "spec", "paused").(bool); !b {
+				continue
+			}
+			odKind := "ObjectDeployment"
+			if k.Kind == "ClusterPackage" {
+				odKind = "ClusterObjectDeployment"
+			}
+			if od, ok := w.Mgmt.Objs[store.Key{Group: PKOGroup, Kind: odKind, Namespace: k.Namespace, Name: k.Name}]; ok && IsControlledBy(od, o, "native") {
+				m.touch()
+				if b, _ := store.Get(od, "spec", "paused").(bool); !b {
+					w.Report(Violation{Property: "C09", Rule: "propagation", Sig: "deployment-not-paused", Msg: fmt.Sprintf("at quiescence paused %s has an unpaused ObjectDeployment", k)})
+				}
+			}
 		case isODKind(k.Kind):
 			if b, _ := store.Get(o, "spec", "paused").(bool); !b {
 				continue
